@@ -10,7 +10,7 @@ use serde_json::Value;
 use std::collections::BTreeMap;
 use std::path::{Path, PathBuf};
 
-pub const RULE: &str = "grammar-generated pytest modules (decorator spellings pytest.fixture / fixture / pytest_asyncio.fixture bare and called with name=/scope=/autouse=/extra keywords, assignment style, sync/async, yield placed in up to 3 nested blocks of 11 kinds and in 5 statement forms, nested-function yields, 14 return-annotation forms, 7 fixed docstring layouts plus docstrings generated line by line (text at 4 relative indentations, empty lines, whitespace-only lines shorter and longer than the margin, a lone tab; text on the opening line or not), class-nested and nested-class tests and fixtures, positional-only / keyword-only / defaulted / annotated parameters, usefixtures / parametrize-indirect / pytestmark marks, 8 kinds of noise) compared record by record with the CPython extraction; plus real-world pytest files found offline. Non-trivial = >=1 definition, >=1 usage and >=1 non-baseline feature (non-default decorator form, nested yield, annotation, docstring layout >0, mark, class); distinct = distinct module values.";
+pub const RULE: &str = "grammar-generated pytest modules (decorator spellings pytest.fixture / fixture / pytest_asyncio.fixture bare and called with name=/scope=/autouse=/extra keywords, assignment style, sync/async, yield placed in up to 3 nested blocks of 13 kinds (two of them with a competing later yield in the else / finally block of the same try) and in 5 statement forms, nested-function yields, 14 return-annotation forms, 7 fixed docstring layouts plus docstrings generated line by line (text at 4 relative indentations, empty lines, whitespace-only lines shorter and longer than the margin, a lone tab; text on the opening line or not), class-nested and nested-class tests and fixtures, positional-only / keyword-only / defaulted / annotated parameters, usefixtures / parametrize-indirect / pytestmark marks, 8 kinds of noise) compared record by record with the CPython extraction; plus real-world pytest files found offline. Non-trivial = >=1 definition, >=1 usage and >=1 non-baseline feature (non-default decorator form, nested yield, annotation, docstring layout >0, mark, class); distinct = distinct module values.";
 pub const ASSUMPTIONS: &[&str] = &[
     "CPython 3.11 ast/tokenize as the parser of record; sources rejected by CPython are skipped, sources only rustpython rejects are counted (parser_disagreements) and not judged",
     "documented recognisers as listed in oracle/pyoracle.py; a parameter with a default value is not a fixture request (pytest getfuncargnames)",
